@@ -40,6 +40,7 @@ type Engine struct {
 
 	solverKind string
 	tier       string
+	fixedModel map[string]string
 	timeoutMs  int
 
 	loadTime time.Duration
